@@ -156,6 +156,9 @@ func (v *VC) Preamble() string {
 			fmt.Fprintf(&sb, "(assert (= %s 0))\n", n)
 		}
 		srt := v.heapKeys[k]
+		if ax := v.mapValClockAxiom(n, k, "0"); ax != "" {
+			sb.WriteString(ax + "\n")
+		}
 		if !strings.HasPrefix(srt, "RAW:") {
 			if isPtrLike(srt) {
 				fmt.Fprintf(&sb, "(assert (forall ((p Ptr)) (! (<= (root %s) 0) :pattern ((select %s p)))))\n", ptrOf(srt, fmt.Sprintf("(select %s p)", n)), n)
